@@ -360,7 +360,14 @@ func (w *world) runAdd(c *conf, height int64, pre []*types.Transaction, pool []*
 		out.Stat("add_near_size_bound", 1)
 	}
 	if enc := types.Size(block); len(added) > 0 && enc > types.MaxBlockSize {
-		out.Pred(sig("encoded-block-exceeds-MaxBlockSize"), fmt.Sprintf("%s enc=%d", det, enc))
+		if limit > 20000 {
+			// declared configuration assumption (Props: encoded_le_maxBlockSize needs limit <= 20000,
+			// encoded_bound_needs_limit shows why): not a predicate failure, recorded
+			out.Stat("encoded_exceeds_MaxBlockSize_with_limit_over_20000", 1)
+			out.Sample(fmt.Sprintf("[%s] maxTxNumber=%d: %d txs, accumulated Size %d <= %d but encoded block %d > MaxBlockSize (CheckBlock would answer ErrBlockSize)", tag, limit, len(block.Txs), sum, bound, enc))
+		} else {
+			out.Pred(sig("encoded-block-exceeds-MaxBlockSize"), fmt.Sprintf("%s enc=%d", det, enc))
+		}
 	}
 	// order: result ids appear in the order of the flattened input
 	var flat []int64
@@ -1012,6 +1019,12 @@ func (w *world) witness(c *conf) {
 		out.Note("ground nonce no longer yields a group hash that decodes as a non-empty group")
 		out.Stat("witness_nonempty_not_reproducible", 1)
 	}
+	// truncated trailing group: i+GroupCount > len(txs) is `continue`d over, the expired members
+	// are kept (no caller passes such a list; differential only, see Props expire_truncated_group_kept)
+	{
+		_, ms := w.newGroup([]txOpt{{expire: 5, expired: true}, {expire: 5, expired: true}, {expire: 5, expired: true}})
+		w.runExpire(c, nil, []*types.Transaction{single, ms[0], ms[1]}, 10, 1600000000, "truncated_trailing_group")
+	}
 	// (c) forged header: 0a0e 4002 120a<10 bytes> twice = two members with GroupCount 2, Expire 0
 	member := append([]byte{0x0a, 0x0e, 0x40, 0x02, 0x12, 0x0a}, make([]byte, 10)...)
 	forged := append(append([]byte{}, member...), member...)
@@ -1064,6 +1077,27 @@ func main() {
 	w.sizeEdges(local, 7)
 	w.sizeEdges(wide, 99) // blacklist fork inactive
 	w.sizeEdges(wide, 100)
+	// configuration assumption demo: maxTxNumber = 100000 (types.MaxTxsPerBlock), 100000 txs of Size 199
+	{
+		huge := forkConf("verifc30e", 100000, 50, 100000, 80, 100000, types.MaxHeight, 1000000)
+		types.SetBlockedAccountsForTest(w.blAddr)
+		block := &types.Block{Height: 5}
+		n := (bound - block.Size()) / 199
+		pool := make([]*types.Transaction, 0, n)
+		pay := -1
+		for i := 0; i < n; i++ {
+			if pay >= 0 {
+				if tx := w.newTx(txOpt{unsigned: true, payload: pay}); tx.Size() == 199 {
+					pool = append(pool, tx)
+					continue
+				}
+			}
+			tx := w.withSize(199, txOpt{unsigned: true})
+			pay = len(tx.Payload)
+			pool = append(pool, tx)
+		}
+		w.runAdd(huge, 5, nil, pool, "limit_over_20000_demo")
+	}
 	w.expireCases(small)
 	w.expireCases(local)
 	w.witness(small)
